@@ -241,7 +241,7 @@ def _convert_call(
         callee,
         args,
         cconv=op.CConv.cconv_name,
-        tail=op.TailCallKind.data != "none",
+        tail=op.TailCallKind.data.value if op.TailCallKind.data != "none" else False,
         fastmath=fastmath,
     )
     if op.returned:
